@@ -26,7 +26,7 @@ Record transport := mkTr {
 Definition transport_init : transport := mkTr auth_init false false [] false.
 
 (* auth_via_unix_user_function when a function is set and the identity has a uid, else auth_via_default_rules *)
-Definition admit (te : tenv) (id : creds) : bool :=
+Definition admission (te : tenv) (id : creds) : bool :=
   match t_unix_user_fn te, c_uid id with
   | Some f, Some u => f u
   | _, _ => t_allow_anonymous te || opt_N_eqb (c_uid id) (Some 0)
@@ -42,7 +42,7 @@ Definition try_to_authenticate (te : tenv) (t : transport) : transport :=
        | Some a =>
            match work_result a with
            | W_Authenticated =>
-               if admit te (get_identity a)
+               if admission te (get_identity a)
                then mkTr a true false (tr_loader t) (tr_recovered t)
                else mkTr a false true (tr_loader t) (tr_recovered t)       (* _dbus_transport_disconnect *)
            | _ => mkTr a false (tr_disconnected t) (tr_loader t) (tr_recovered t)
